@@ -35,7 +35,7 @@ def exec_scripts(wd, scripts):
     return vlib.read_ndjson(out), spins
 
 
-def run(pid, tier, replay, prefixes, models, gens, level_rule, keyfn=None, extra_scripts=None):
+def run(pid, tier, replay, prefixes, models, gens, level_rule, keyfn=None, extra_scripts=None, trace_spec="endpoint/EndpointTrace", keep=None, require_stats=(), negatives=()):
     """models: list of (module, cfg) checked with TLC (violation => failure 'model:...').
     gens: list of (module, cfg) whose SCRIPT lines are executed."""
     wd = vlib.workdir("ep-%s-%s" % (pid, tier))
@@ -51,6 +51,11 @@ def run(pid, tier, replay, prefixes, models, gens, level_rule, keyfn=None, extra
             g, d = vlib.tlc_stats(out)
             states += d
             trans += g
+        # negative controls: configurations whose invariant must be violated (the model is not vacuous)
+        for mod, cfg, inv in negatives:
+            out = vlib.tlc(mod, cfg=cfg, wd=wd, workers=4, timeout=3000)
+            if inv not in (vlib.tlc_violation(out) or ""):
+                raise vlib.ToolError("negative control %s did not violate %s" % (cfg, inv))
     scripts = []
     if replay:
         scripts = [json.dumps(json.load(open(replay))["detail"]["script"])]
@@ -68,10 +73,39 @@ def run(pid, tier, replay, prefixes, models, gens, level_rule, keyfn=None, extra
             scripts += [json.dumps(x) for x in extra_scripts]
     rows, spins = exec_scripts(wd, scripts)
     tp = os.path.join(wd, "trace.ndjson")
-    out = vlib.tlc("endpoint/EndpointTrace", wd=wd, workers=1, env={"TRACE": tp}, deque=True, xmx="16g", timeout=3000)
-    if "VALIDATED" not in out:
-        raise vlib.ToolError("trace validation did not consume every line")
-    fails = sorted(set(tuple(x) for x in vlib.printed_tuples(out, "FAIL")), key=lambda x: int(x[1]))
+    if keep:
+        rows = [r for r in rows if keep(r)]
+        tp = os.path.join(wd, "trace.kept.ndjson")
+        vlib.write_ndjson(tp, [json.dumps(r) for r in rows])
+    # long traces are validated in chunks cut at script boundaries (every script starts with an Init row)
+    CH = 300000
+    cuts = [0]
+    for i, r in enumerate(rows):
+        if r["ev"] == "Init" and i - cuts[-1] >= CH:
+            cuts.append(i)
+    cuts.append(len(rows))
+    stats = {}
+    fails = []
+    for a, b in zip(cuts, cuts[1:]):
+        if a == b:
+            continue
+        cp = tp
+        if len(cuts) > 2:
+            cp = os.path.join(wd, "trace.chunk.ndjson")
+            vlib.write_ndjson(cp, [json.dumps(r) for r in rows[a:b]])
+        out = vlib.tlc(trace_spec, wd=wd, workers=1, env={"TRACE": cp}, deque=True, xmx="16g", timeout=3000)
+        if "VALIDATED" not in out:
+            raise vlib.ToolError("trace validation did not consume every line")
+        for t in vlib.printed_tuples(out, "STAT"):
+            stats[t[0]] = stats.get(t[0], 0) + 1
+        for f in vlib.printed_tuples(out, "FAIL"):
+            f[1] = str(int(f[1]) + a)
+            fails.append(tuple(f))
+    fails = sorted(set(fails), key=lambda x: int(x[1]))
+    if not replay:
+        for name in require_stats:
+            if not stats.get(name):
+                raise vlib.ToolError("vacuous run: no trace step counted as '%s'" % name)
     per_script = {}
     for clause, line, detail in [(f[0], int(f[1]), f[2] if len(f) > 2 else "") for f in fails]:
         if not clause.startswith(tuple(prefixes)):
@@ -92,7 +126,7 @@ def run(pid, tier, replay, prefixes, models, gens, level_rule, keyfn=None, extra
             "samples": [json.loads(scripts[i]) for i in sorted(set([0, len(scripts) // 2, len(scripts) - 1]))][:3],
             "evaluations": len(rows), "distinct_nontrivial": len(set(scripts)),
             "rule": level_rule, "trace_events": len(rows), "quiescence_points": nq, "scripts_spinning": len(spins),
-            "clauses_owned": list(prefixes), "exhaustive": True,
+            "clauses_owned": list(prefixes), "exhaustive": True, "stats": stats,
         },
         "assumptions": ["lock-step execution on a paused clock samples the schedule space (script order, capacities), it does not enumerate task interleavings",
                         "frame parsing / payload identification in the harness is trusted transcription"],
